@@ -190,7 +190,20 @@ func nilnessEdge(a, b *ssa.BasicBlock, same func(x ssa.Value) bool, wantNil bool
 // remaining route to the target is one where err may be non-nil.
 // Returns true when the target is protected.
 func errGuarded(fn *ssa.Function, from ssa.Instruction, err ssa.Value, target instrPred) bool {
-	same := func(x ssa.Value) bool { return x == err }
+	same := func(x ssa.Value) bool {
+		if x == err {
+			return true
+		}
+		// the error may be merged with the errors of sibling arms before it is tested
+		if phi, ok := x.(*ssa.Phi); ok {
+			for _, e := range phi.Edges {
+				if e == err {
+					return true
+				}
+			}
+		}
+		return false
+	}
 	hit := reach(fn, from, target, nil, func(a, b *ssa.BasicBlock) bool {
 		return nilnessEdge(a, b, same, true)
 	})
